@@ -6,7 +6,7 @@ Import ListNotations.
 Local Open Scope positive_scope.
 
 Definition cmpop_eqb (a b : cmpop) : bool :=
-  match a, b with OEq, OEq | OEqRev, OEqRev | OBin, OBin | OBtw, OBtw => true | _, _ => false end.
+  match a, b with OEq, OEq | OEqRev, OEqRev | OBin, OBin | OBtw, OBtw | OIsNull, OIsNull => true | _, _ => false end.
 Definition cmp_eqb (x y : cmp) : bool :=
   let '(o1, a1, c1, v1) := x in let '(o2, a2, c2, v2) := y in
   cmpop_eqb o1 o2 && Pos.eqb a1 a2 && Pos.eqb c1 c2 && Pos.eqb v1 v2.
